@@ -38,6 +38,12 @@ NOT_COVERED = [
     'the int24 input path is tied only inside the exact binary32 domain; that decoded floats stay within +-1.0 (so that '
     'matrix_int24_exact applies to |sample| <= 2^23) is not proved',
     'mapping family 3 of RFC 8486 allows orders 0..14; the code has matrices for orders 1..5 only (other counts are rejected)',
+    'OBSERVATION (no property clause demands user-supplied non-square matrices): a projection decoder created with '
+    'channels C < N+M (streams+coupled) stores a C x (N+M) demixing matrix but uses only its first C columns - '
+    'opus_projection_decoder_init gives the multistream decoder the identity layout on C channels, so decoded channel k is '
+    'routed only for k < C and multiplied into column k; decoded channels k >= C are never output and columns k >= C are dead. '
+    'RFC 8486 section 3.2 (family 3) prescribes output = D x (all N+M decoded channels). The built-in encoder only exports '
+    'square matrices, for which both readings coincide; the S4 nonsq oracle follows the code (columns < C). C > N+M is rejected',
     'opus_int32 overflow: C int as unbounded integers (all quantities here are below 2^31 by the argument checks)',
 ]
 ASSUMPTIONS = ['the mapping array supplied to init/create holds at least `channels` bytes (exact-size heap blocks under ASan)',
